@@ -590,6 +590,53 @@ func runC08(r *Report, rng *rand.Rand, thorough bool) {
 			}
 		}
 	}
+	// ---- a reference to a component that carries x-go-type: the reference is rendered as the referenced NAMED type (the
+	// component's declaration is what the extension changes), in every place a reference may stand, under both aliasing modes
+	for _, oldAliasing := range []bool{false, true} {
+		spec, _ := json.Marshal(map[string]any{"openapi": "3.0.3", "info": map[string]any{"title": "c", "version": "1"},
+			"paths": map[string]any{"/things": map[string]any{"get": map[string]any{"operationId": "getThings",
+				"parameters": []any{map[string]any{"name": "min", "in": "query", "schema": map[string]any{"$ref": "#/components/schemas/Money"}}},
+				"responses":  map[string]any{"204": map[string]any{"description": "d"}}}}},
+			"components": map[string]any{"schemas": map[string]any{
+				"Money": map[string]any{"type": "string", "x-go-type": "decimal.Decimal", "x-go-type-import": map[string]any{"path": "github.com/shopspring/decimal"}},
+				"Invoice": map[string]any{"type": "object", "required": []string{"total"}, "properties": map[string]any{
+					"total": map[string]any{"$ref": "#/components/schemas/Money"}, "tip": map[string]any{"$ref": "#/components/schemas/Money"},
+					"lines":  map[string]any{"type": "array", "items": map[string]any{"$ref": "#/components/schemas/Money"}},
+					"byKind": map[string]any{"type": "object", "additionalProperties": map[string]any{"$ref": "#/components/schemas/Money"}}}}}}})
+		cfg := codegen.Configuration{PackageName: "gen", Generate: codegen.GenerateOptions{Models: true, EchoServer: true}}
+		cfg.OutputOptions.SkipPrune = true
+		cfg.Compatibility.OldAliasing = oldAliasing
+		replay := map[string]any{"spec": json.RawMessage(spec), "old_aliasing": oldAliasing}
+		r.Count(fmt.Sprintf("ref-to-x-go-type/%v", oldAliasing), true)
+		code, err := generate(spec, cfg)
+		if err != nil {
+			r.Violate("ref_name_generate_error", "reference to a component with x-go-type: "+trunc(err.Error(), 200), replay)
+			continue
+		}
+		p, _ := parseGo(code)
+		got := map[string]string{}
+		if fields, ok := structFields(p, "Invoice"); ok {
+			for _, f := range fields {
+				got[strings.Split(jsonTagOf(f.Tag), ",")[0]] = f.Type
+			}
+		}
+		if fields, ok := structFields(p, "GetThingsParams"); ok {
+			for _, f := range fields {
+				if f.GoName == "Min" {
+					got["(query parameter) min"] = f.Type
+				}
+			}
+		}
+		want := map[string]string{"total": "Money", "tip": "*Money", "lines": "*[]Money", "byKind": "*map[string]Money", "(query parameter) min": "*Money"}
+		for k, w := range want {
+			if got[k] != w {
+				r.Violate("ref_names_the_declared_type", fmt.Sprintf("reference to the component Money (x-go-type decimal.Decimal), old-aliasing=%v: %s has type %q, the referenced named type gives %q", oldAliasing, k, got[k], w), replay)
+			}
+		}
+		if !p.typeNames()["Money"] {
+			r.Violate("ref_names_the_declared_type", "the component Money is not declared", replay)
+		}
+	}
 	// ---- parameter schemas: a parameter of every location (path, query, header, cookie) whose schema is a table row, an inline
 	// enum over a table row, or a reference. The argument (path) or the member of the parameter object (elsewhere) has the
 	// table's type; an inline enum gets a named type that IS DECLARED in the file with the table's type under it, and constants
@@ -624,7 +671,7 @@ func runC08(r *Report, rng *rand.Rand, thorough bool) {
 					path = "/r/{x}"
 				}
 				spec, _ := json.Marshal(map[string]any{"openapi": "3.0.3", "info": map[string]any{"title": "c", "version": "1"},
-					"paths": map[string]any{path: map[string]any{"get": map[string]any{"operationId": "getR", "parameters": params, "responses": map[string]any{"204": map[string]any{"description": "d"}}}}},
+					"paths":      map[string]any{path: map[string]any{"get": map[string]any{"operationId": "getR", "parameters": params, "responses": map[string]any{"204": map[string]any{"description": "d"}}}}},
 					"components": map[string]any{"schemas": map[string]any{"Colour": map[string]any{"type": "string", "enum": []string{"red", "blue"}}}}})
 				cfg := codegen.Configuration{PackageName: "gen", Generate: codegen.GenerateOptions{Models: true, EchoServer: true}}
 				replay := map[string]any{"spec": json.RawMessage(spec), "location": loc, "class": c.label, "type": c.t, "format": c.f}
@@ -699,7 +746,7 @@ func runC08(r *Report, rng *rand.Rand, thorough bool) {
 	fcases.WriteTo(r)
 	tcases.WriteTo(r)
 	r.Exhaustive = true
-	r.Rule = "exhaustive: every cell of required x nullable x readOnly x writeOnly x x-go-type-skip-optional-pointer {absent,true,false} x x-omitempty {absent,true,false} x x-go-json-ignore {absent,true,false} (432 cells) x disable-required-readonly-as-pointer x nullable-type (4 option sets) generated as one struct per option set, every field's type wrapper and json tag read back with go/parser and compared with the model in Coq and, for extension-free cells, with the documented rules; every (type, format) pair over 4 types x 23 formats incl. unknown ones vs the model's table and the documented rows; parameters of every location (path argument, member of the parameter object for query / header / cookie) over eight table rows, inline enums over three rows (the named type declared with the row's type under it, one constant per value) and a referenced enum; arrays / maps / free-form objects / $ref; x-go-name (CamelCase, snake_case and lowerCamel values), x-go-type-skip-optional-pointer through a reference / an allOf wrapper / as false on format json, x-go-type(+import), x-oapi-codegen-extra-tags, x-order, x-deprecated-reason must change exactly their own component (compared on the AST); the type-alias switches (default, disable-type-aliases-for-type: [array], old-aliasing) over named array / primitive / $ref / enum / object types and an inline array request body: alias or defined type and the underlying type of every declaration; non-trivial = a cell with an extension or option"
+	r.Rule = "exhaustive: every cell of required x nullable x readOnly x writeOnly x x-go-type-skip-optional-pointer {absent,true,false} x x-omitempty {absent,true,false} x x-go-json-ignore {absent,true,false} (432 cells) x disable-required-readonly-as-pointer x nullable-type (4 option sets) generated as one struct per option set, every field's type wrapper and json tag read back with go/parser and compared with the model in Coq and, for extension-free cells, with the documented rules; every (type, format) pair over 4 types x 23 formats incl. unknown ones vs the model's table and the documented rows; parameters of every location (path argument, member of the parameter object for query / header / cookie) over eight table rows, inline enums over three rows (the named type declared with the row's type under it, one constant per value) and a referenced enum; arrays / maps / free-form objects / $ref; x-go-name (CamelCase, snake_case and lowerCamel values), x-go-type-skip-optional-pointer through a reference / an allOf wrapper / as false on format json, x-go-type(+import) - also behind a reference (member, array items, map values, query parameter: the referenced named type, under both aliasing modes) -, x-oapi-codegen-extra-tags, x-order, x-deprecated-reason must change exactly their own component (compared on the AST); the type-alias switches (default, disable-type-aliases-for-type: [array], old-aliasing) over named array / primitive / $ref / enum / object types and an inline array request body: alias or defined type and the underlying type of every declaration; non-trivial = a cell with an extension or option"
 }
 
 // interfaceMethodParamType returns the type of the named parameter of a method of an interface type ("" if absent).
